@@ -7,6 +7,7 @@
 //! Exit codes: 0 property held, 1 violation, 2 harness error.
 
 mod c08;
+mod c08proc;
 mod c10;
 mod c16;
 mod c20;
